@@ -9,6 +9,7 @@ import (
 	"net/http"
 	"os"
 	"path/filepath"
+	"runtime/debug"
 	"strings"
 	"testing"
 	"time"
@@ -379,6 +380,7 @@ func c16Grammar(t *rapid.T, parser string) []byte {
 			"X-H: v", "X-H:v", "X-H:", ": v", "NoColon", " X-H: v", "X-H : v", "X-H: v: w", "X-H: " + strings.Repeat("v", 5000), "é: ü", "@/etc/hostname", "@", "@ ", "@/nonexistent/x", "@@", " @/etc/hostname",
 			strings.Repeat("x", 4095), strings.Repeat("x", 4096), strings.Repeat("x", 4097), strings.Repeat("x", 8192), "X-H: " + strings.Repeat("v", 4091), "X-H: " + strings.Repeat("v", 8187), "# " + strings.Repeat("c", 4094),
 			"GET http://h.test/" + strings.Repeat("p", 4078), strings.Repeat("x", 65536), strings.Repeat("x", 65535),
+			"POST\thttp://h.test/", "GET\fhttp://h.test/", "GET\vhttp://h.test/", "GET\rhttp://h.test/", "PUT\u00a0http://h.test/", "GET\t", "G ET http://h.test/", "GET\thttp://h.test/ x",
 			"", " ", "\t", "# comment", " # indented comment", "#", "\t#@/etc/hostname", "#GET http://h.test/", "\r", "GET http://h.test/\r", "\x00", strings.Repeat("x", 70000)}
 		if rapid.Bool().Draw(t, "structured") {
 			// well-formed targets, the last one's header block interrupted by one odd line
@@ -409,6 +411,41 @@ func c16Grammar(t *rapid.T, parser string) []byte {
 		}
 	}
 	return []byte(b.String())
+}
+
+// memory proportional to the input includes the stack: a parser that recurses once per line needs ~100 bytes of
+// stack per 2-byte comment line. The goroutine stack limit is lowered for this process (the default of 1 GB
+// would be reached only by inputs of tens of megabytes); exceeding it is a fatal error, which the driver
+// reports together with the case left behind by vh.Inflight.
+func TestC16CommentRuns(t *testing.T) {
+	debug.SetMaxStack(48 << 20)
+	vh.Check(t, 2, 12, func(t *rapid.T) {
+		n := rapid.SampledFrom([]int{1 << 20, 2 << 20, 3 << 20}).Draw(t, "lines")
+		line := rapid.SampledFrom([]string{"#\n", "# x\n", " #\n", "\n", "#\r\n"}).Draw(t, "line")
+		where := rapid.SampledFrom([]string{"after-request-line", "before-first-target", "inside-header-block", "after-body-line"}).Draw(t, "where")
+		var b strings.Builder
+		switch where {
+		case "after-request-line":
+			b.WriteString("GET http://h.test/\n")
+		case "inside-header-block":
+			b.WriteString("GET http://h.test/\nX-A: 1\n")
+		case "after-body-line":
+			b.WriteString("GET http://h.test/\n@/etc/hostname\n")
+		}
+		if line == "\n" && where == "inside-header-block" {
+			line = "#\n"
+		}
+		b.WriteString(strings.Repeat(line, n))
+		b.WriteString("X-B: 2\n\nGET http://h.test/last\n")
+		c := c16Case{Parser: "targets-http", Input: []byte(b.String())}
+		vh.Case("C16.commentruns", fmt.Sprintf("%d x %q %s", n, line, where), true, where)
+		vh.Inflight("C16", "C16.parsers", c16Case{Parser: "targets-http", Input: []byte(fmt.Sprintf("(%d x %q %s: regenerate with TestC16CommentRuns)", n, line, where))})
+		var err error
+		vh.Guard("C16", "C16.parsers", c16Case{Parser: "targets-http"}, func() { _, err = evalC16(c) })
+		if err != nil {
+			vh.Fail(t, "C16", "C16.commentruns", map[string]any{"lines": n, "line": line, "where": where}, err)
+		}
+	})
 }
 
 func TestC16Parsers(t *testing.T) {
